@@ -76,9 +76,22 @@ def case_strategy(draw):
         fr = int(frames[3:])
     else:
         fr = None
-    return {"kind": kind, "members": members, "nested": draw(st.booleans()), "frames": fr,
+    anim = None
+    if kind in ("body", "current") and draw(st.integers(0, 3)) == 0:
+        # animation: one frame per (possibly down-sampled) path index; longer paths so that down-sampling happens
+        n_anim = draw(st.integers(2, 9))
+        base = members[0]
+        pos = [[gen.r6(draw(gen.ufloat(-3, 3)) * size) for _ in range(3)] for _ in range(n_anim)]
+        ori = [draw(gen.quaternion()) for _ in range(n_anim)] if draw(st.booleans()) else [base["orientation"][0]] * n_anim
+        base.update({"position": pos, "orientation": ori})
+        anim = {"value": draw(st.sampled_from([True, True, 2, 1])),  # (a float time is documented but rejected by the Animation.time validator: not this property)
+                "maxframes": draw(st.sampled_from([None, None, 2, 3, 4, 6])),
+                "fps": draw(st.sampled_from([None, None, 3, 10])),
+                "slider": draw(st.sampled_from([None, True, False]))}
+        frames, fr = "default", None
+    return {"kind": kind, "members": members, "nested": draw(st.booleans()), "frames": fr, "animation": anim,
             "units": draw(st.sampled_from(["default", "default", "auto", "m", "cm", "mm", "µm"])),
-            "backend": draw(st.sampled_from(["plotly", "plotly", "plotly", "matplotlib"])),
+            "backend": "plotly" if anim else draw(st.sampled_from(["plotly", "plotly", "plotly", "matplotlib"])),
             "style_dict": draw(st.booleans()), "frames_via": draw(st.sampled_from(["kwarg", "object"]))}
 
 
@@ -146,6 +159,16 @@ def run_case(case, ctx):
         if "style_path_frames" in kw:
             caller_style["path"]["frames"] = kw.pop("style_path_frames")
         kw["style"] = caller_style
+    anim = case.get("animation")
+    if anim:
+        kw["animation"] = anim["value"]
+        if anim["maxframes"] is not None:
+            kw["animation_maxframes"] = anim["maxframes"]
+        if anim["fps"] is not None:
+            kw["animation_fps"] = anim["fps"]
+        if anim["slider"] is not None:
+            kw["animation_slider"] = anim["slider"]
+        ctx.label("animation")
     if case["units"] != "default":
         kw["units_length"] = case["units"]
     everything = list(objs) + [s for s in subject if s not in objs] + [c for s in subject if isinstance(s, magpy.Collection) for c in s.collections_all]
@@ -172,7 +195,11 @@ def run_case(case, ctx):
                                  f"show() changed {d} of {type(o).__name__}"))
             break
     if repr(magpy.defaults.as_dict()) != defaults_before:
-        out.append(Violation({"sub": "show_changed_defaults", "backend": case["backend"]}, "magpylib.defaults differs after show()"))
+        out.append(Violation({"sub": "show_changed_defaults", "backend": case["backend"], "animation": bool(anim)},
+                             "magpylib.defaults differs after show()" + (f" (animation keywords {sorted(k for k in kw if k.startswith('animation'))})" if anim else "")))
+        from vf.props.c20 import restore_defaults  # pylint: disable=import-outside-toplevel
+
+        restore_defaults()  # do not let one case's leak reach the next case
     if caller_style is not None and caller_style != style_before:
         out.append(Violation({"sub": "show_changed_caller_style_dict", "backend": case["backend"]},
                              f"the style dictionary passed to show() was modified: {style_before} -> {caller_style}"))
@@ -197,87 +224,121 @@ def run_case(case, ctx):
         return out
     if case["units"] in ("m", "cm", "mm", "µm") and abs(fac - UNITS[case["units"]]) > 1e-12 * fac:
         out.append(Violation({"sub": "axis_unit_wrong", "requested": case["units"]}, f"axis title {title!r}"))
-    inds = displayed_indices(frames, n_path)
-    meshes, lines, paths = [], [], []
-    for t in fig.data:
-        if t.x is None:
-            continue
-        P = np.stack([np.asarray(t.x, dtype=float), np.asarray(t.y, dtype=float), np.asarray(t.z, dtype=float)], 1) * fac
-        ty = type(t).__name__
-        if ty == "Mesh3d" and t.i is not None:
-            used = np.unique(np.concatenate([np.asarray(t.i), np.asarray(t.j), np.asarray(t.k)]).astype(int))
-            meshes.append((t.name or "", P[used]))
-        elif ty == "Scatter3d":
-            mode = t.mode or ""
-            ok = np.all(np.isfinite(P), axis=1)
-            (paths if "markers" in mode else lines).append((t.name or "", P[ok]))
-    sig0 = {"kind": case["kind"], "frames": "default" if frames is None else ("int" if isinstance(frames, int) else ("list_oob" if max(frames) >= n_path else "list")),
-            "units": case["units"]}
-    # ---- bodies
-    body_members = [(o, s) for o, s in zip(objs, case["members"]) if s["cls"] in BODIES + ["Triangle"]]
-    if body_members:
-        label_ok = ("COLL", "INNER") if case["kind"] == "collection" else ("OBJ0",)
-        V = [P for name, P in meshes if name.startswith(label_ok)]
-        if not V:
-            out.append(Violation({**sig0, "sub": "no_mesh_drawn"}, f"no Mesh3d trace for the subject; traces: {[n for n, _ in meshes]}"))
-            return out
-        V = np.concatenate(V)
-        explained = np.zeros(len(V), dtype=bool)
-        for o, s in body_members:
+    paths_static = []
+
+    def judge(traces, inds, frame_tag):
+        """geometric predicate for one set of traces that claims to show the path indices `inds`"""
+        meshes, lines, paths = [], [], []
+        for t in traces:
+            if t.x is None:
+                continue
+            P = np.stack([np.asarray(t.x, dtype=float), np.asarray(t.y, dtype=float), np.asarray(t.z, dtype=float)], 1) * fac
+            ty = type(t).__name__
+            if ty == "Mesh3d" and t.i is not None:
+                used = np.unique(np.concatenate([np.asarray(t.i), np.asarray(t.j), np.asarray(t.k)]).astype(int))
+                meshes.append((t.name or "", P[used]))
+            elif ty == "Scatter3d":
+                mode = t.mode or ""
+                ok = np.all(np.isfinite(P), axis=1)
+                (paths if "markers" in mode else lines).append((t.name or "", P[ok]))
+        paths_static[:] = paths
+        sig0 = {"kind": case["kind"], "animation_frame": frame_tag, "frames": "default" if frames is None else ("int" if isinstance(frames, int) else ("list_oob" if max(frames) >= n_path else "list")),
+                "units": case["units"]}
+        # ---- bodies
+        body_members = [(o, s) for o, s in zip(objs, case["members"]) if s["cls"] in BODIES + ["Triangle"]]
+        if body_members:
+            label_ok = ("COLL", "INNER") if case["kind"] == "collection" else ("OBJ0",)
+            V = [P for name, P in meshes if name.startswith(label_ok)]
+            if not V:
+                out.append(Violation({**sig0, "sub": "no_mesh_drawn"}, f"no Mesh3d trace for the subject; traces: {[n for n, _ in meshes]}"))
+                return None
+            V = np.concatenate(V)
+            explained = np.zeros(len(V), dtype=bool)
+            for o, s in body_members:
+                body = geom.body_from_spec(s)
+                lo, hi = _bbox(body)
+                for m in inds:
+                    p, rot = build.pose_at(s, m)
+                    loc = rot.apply(V - p, inverse=True)
+                    on = body.dist(loc) <= 1e-6 * body.L + 1e-9 * float(np.max(np.abs(V)) + 1e-300)
+                    explained |= on
+                    if not np.any(on):
+                        out.append(Violation({**sig0, "sub": "object_not_drawn_at_frame", "cls": s["cls"], "frame_is_last": m == n_path - 1},
+                                             f"{s['cls']}: no drawn vertex lies on the body at displayed path index {m} (of {n_path}); frames={frames}"))
+                        continue
+                    ext_lo, ext_hi = loc[on].min(0), loc[on].max(0)
+                    span = hi - lo
+                    if np.any(ext_lo - lo > 0.03 * np.maximum(span, body.L * 1e-9) + 1e-12) or np.any(hi - ext_hi > 0.03 * np.maximum(span, body.L * 1e-9) + 1e-12):
+                        out.append(Violation({**sig0, "sub": "drawn_extent", "cls": s["cls"]},
+                                             f"{s['cls']} at path index {m}: drawn vertices span {ext_lo.tolist()}..{ext_hi.tolist()}, body spans {lo.tolist()}..{hi.tolist()}"))
+            if not np.all(explained):
+                k = int(np.flatnonzero(~explained)[0])
+                out.append(Violation({**sig0, "sub": "vertex_off_surface", "classes": sorted({s['cls'] for _, s in body_members})},
+                                     f"{int(np.sum(~explained))} of {len(V)} drawn vertices lie on no member's surface at any displayed path index {inds} "
+                                     f"(first: {V[k].tolist()} m; unit factor {fac})"))
+        # ---- currents
+        for o, s in zip(objs, case["members"]):
+            if s["cls"] not in ("Circle", "Polyline"):
+                continue
             body = geom.body_from_spec(s)
-            lo, hi = _bbox(body)
+            pts = [P for name, P in lines if name.startswith("OBJ0") and len(P) >= (8 if s["cls"] == "Circle" else len(s["vertices"]))]
+            if not pts:
+                out.append(Violation({**sig0, "sub": "no_line_drawn", "cls": s["cls"]}, f"no line trace for {s['cls']}; lines {[(n, len(p)) for n, p in lines]}"))
+                continue
+            Pl = np.concatenate(pts)
+            explained = np.zeros(len(Pl), dtype=bool)
             for m in inds:
                 p, rot = build.pose_at(s, m)
-                loc = rot.apply(V - p, inverse=True)
-                on = body.dist(loc) <= 1e-6 * body.L + 1e-9 * float(np.max(np.abs(V)) + 1e-300)
+                loc = rot.apply(Pl - p, inverse=True)
+                on = body.dist(loc) <= 1e-6 * body.L + 1e-9 * float(np.max(np.abs(Pl)) + 1e-300)
                 explained |= on
+                if s["cls"] == "Polyline":
+                    Vv = np.asarray(s["vertices"], dtype=float)
+                    hit = [np.min(np.linalg.norm(loc[on] - v, axis=1)) <= 1e-6 * body.L if np.any(on) else False for v in Vv]
+                    if not all(hit):
+                        out.append(Violation({**sig0, "sub": "conductor_vertex_not_drawn", "cls": "Polyline"}, f"path index {m}: vertices hit {hit}"))
+                elif np.any(on):
+                    ang = np.arctan2(loc[on][:, 1], loc[on][:, 0])
+                    if len(np.unique(np.floor((ang + np.pi) / (np.pi / 2)).astype(int) % 4)) < 4:
+                        out.append(Violation({**sig0, "sub": "loop_not_closed", "cls": "Circle"}, f"path index {m}: drawn loop does not cover all quadrants"))
                 if not np.any(on):
                     out.append(Violation({**sig0, "sub": "object_not_drawn_at_frame", "cls": s["cls"], "frame_is_last": m == n_path - 1},
-                                         f"{s['cls']}: no drawn vertex lies on the body at displayed path index {m} (of {n_path}); frames={frames}"))
-                    continue
-                ext_lo, ext_hi = loc[on].min(0), loc[on].max(0)
-                span = hi - lo
-                if np.any(ext_lo - lo > 0.03 * np.maximum(span, body.L * 1e-9) + 1e-12) or np.any(hi - ext_hi > 0.03 * np.maximum(span, body.L * 1e-9) + 1e-12):
-                    out.append(Violation({**sig0, "sub": "drawn_extent", "cls": s["cls"]},
-                                         f"{s['cls']} at path index {m}: drawn vertices span {ext_lo.tolist()}..{ext_hi.tolist()}, body spans {lo.tolist()}..{hi.tolist()}"))
-        if not np.all(explained):
-            k = int(np.flatnonzero(~explained)[0])
-            out.append(Violation({**sig0, "sub": "vertex_off_surface", "classes": sorted({s['cls'] for _, s in body_members})},
-                                 f"{int(np.sum(~explained))} of {len(V)} drawn vertices lie on no member's surface at any displayed path index {inds} "
-                                 f"(first: {V[k].tolist()} m; unit factor {fac})"))
-    # ---- currents
-    for o, s in zip(objs, case["members"]):
-        if s["cls"] not in ("Circle", "Polyline"):
-            continue
-        body = geom.body_from_spec(s)
-        pts = [P for name, P in lines if name.startswith("OBJ0") and len(P) >= (8 if s["cls"] == "Circle" else len(s["vertices"]))]
-        if not pts:
-            out.append(Violation({**sig0, "sub": "no_line_drawn", "cls": s["cls"]}, f"no line trace for {s['cls']}; lines {[(n, len(p)) for n, p in lines]}"))
-            continue
-        Pl = np.concatenate(pts)
-        explained = np.zeros(len(Pl), dtype=bool)
-        for m in inds:
-            p, rot = build.pose_at(s, m)
-            loc = rot.apply(Pl - p, inverse=True)
-            on = body.dist(loc) <= 1e-6 * body.L + 1e-9 * float(np.max(np.abs(Pl)) + 1e-300)
-            explained |= on
-            if s["cls"] == "Polyline":
-                Vv = np.asarray(s["vertices"], dtype=float)
-                hit = [np.min(np.linalg.norm(loc[on] - v, axis=1)) <= 1e-6 * body.L if np.any(on) else False for v in Vv]
-                if not all(hit):
-                    out.append(Violation({**sig0, "sub": "conductor_vertex_not_drawn", "cls": "Polyline"}, f"path index {m}: vertices hit {hit}"))
-            elif np.any(on):
-                ang = np.arctan2(loc[on][:, 1], loc[on][:, 0])
-                if len(np.unique(np.floor((ang + np.pi) / (np.pi / 2)).astype(int) % 4)) < 4:
-                    out.append(Violation({**sig0, "sub": "loop_not_closed", "cls": "Circle"}, f"path index {m}: drawn loop does not cover all quadrants"))
-            if not np.any(on):
-                out.append(Violation({**sig0, "sub": "object_not_drawn_at_frame", "cls": s["cls"], "frame_is_last": m == n_path - 1},
-                                     f"{s['cls']}: no drawn line point on the conductor at displayed path index {m}"))
-        frac = float(np.mean(explained))
-        if frac < 0.999:
-            out.append(Violation({**sig0, "sub": "line_off_conductor", "cls": s["cls"]}, f"only {frac:.2f} of the drawn line points lie on the conductor"))
+                                         f"{s['cls']}: no drawn line point on the conductor at displayed path index {m}"))
+            frac = float(np.mean(explained))
+            if frac < 0.999:
+                out.append(Violation({**sig0, "sub": "line_off_conductor", "cls": s["cls"]}, f"only {frac:.2f} of the drawn line points lie on the conductor"))
+        return sig0
+
+    if anim:
+        fr_list = list(fig.frames)
+        if len(fr_list) == 0:
+            # a path of length 1 (or identical frames) legitimately falls back to a static figure
+            judge(fig.data, [n_path - 1], "static_fallback")
+        names = []
+        for f in fr_list:
+            try:
+                idx = int(str(f.name)) - 1
+            except ValueError:
+                out.append(Violation({"sub": "animation_frame_name", "kind": case["kind"]}, f"frame name {f.name!r} is not a path index"))
+                break
+            names.append(idx)
+            if not 0 <= idx < n_path:
+                out.append(Violation({"sub": "animation_frame_index_out_of_range", "kind": case["kind"]}, f"frame {f.name!r} for a path of length {n_path}"))
+                break
+            judge(f.data, [idx], "frame")
+        if fr_list and names and (names != sorted(set(names)) or names[0] != 0):
+            out.append(Violation({"sub": "animation_frame_order", "kind": case["kind"]}, f"frame path indices {names} (path length {n_path})"))
+        ctx.label(f"animation_frames:{'downsampled' if 0 < len(fr_list) < n_path else 'all'}")
+        sig0 = {"kind": case["kind"], "frames": "animation", "units": case["units"]}
+        paths = []
+    else:
+        inds = displayed_indices(frames, n_path)
+        sig0 = judge(fig.data, inds, "none")
+        if sig0 is None:
+            return out
+        paths = list(paths_static)
     # ---- path line passes through the path positions
-    if n_path >= 2:
+    if n_path >= 2 and not anim:
         subj_pos = np.asarray(case["members"][0]["position"], dtype=float) if case["kind"] != "collection" else None
         if subj_pos is not None:
             cands = [P for name, P in paths if name.startswith("OBJ0") and len(P) == n_path]
